@@ -51,6 +51,8 @@ type caServer struct {
 	Order      []int // global sequence numbers of handler runs
 	// answer kind "hold": the request of "signer-A" announces itself on arrived and waits for gate (or its own deadline)
 	arrived, gate chan struct{}
+	// seqAns, when set, scripts the server per request: the n-th request it receives gets seqAns[n] (the last one repeats)
+	seqAns []answer
 }
 
 func (s *caServer) PostUserSSHCertificate(ctx context.Context, req *proto.SSHCertificateSigningRequest) (*proto.SSHKey, error) {
@@ -65,6 +67,9 @@ func (s *caServer) PostUserSSHCertificate(ctx context.Context, req *proto.SSHCer
 		}
 	}
 	a := s.ans
+	if len(s.seqAns) > 0 {
+		a = s.seqAns[min(len(s.Requests)-1, len(s.seqAns)-1)]
+	}
 	arrived, gate := s.arrived, s.gate
 	s.mu.Unlock()
 	if a.Kind == "hold" && gate != nil && len(req.Principals) == 1 && req.Principals[0] == "signer-A" {
@@ -91,7 +96,7 @@ func (s *caServer) PostUserSSHCertificate(ctx context.Context, req *proto.SSHCer
 
 func (s *caServer) reset() {
 	s.mu.Lock()
-	s.Requests, s.Versions, s.PeerCerts, s.Order, s.Handshakes = nil, nil, nil, nil, 0
+	s.Requests, s.Versions, s.PeerCerts, s.Order, s.Handshakes, s.seqAns = nil, nil, nil, nil, 0, nil
 	s.mu.Unlock()
 }
 
